@@ -564,6 +564,9 @@ def run(ck, prog, ctx):
             def comp(at):
                 return {tuple(e[1] for e in a[5] if e[0] == "f")[-1:] for a in at if a[0] == "call" and a[1].endswith("::next")}
             ok = comp(pa) == {("1",)} and comp(ca) == {("0",)}
+            if ("add_parent" in (t.callee.res or "") and not (t.callee.res or "").endswith(("::add_parent", "::add_parent_unchecked"))) or (not {c for c in comp(pa) if c} and not {c for c in comp(ca) if c}) or not (comp(pa) <= {("0",), ("1",)} and comp(ca) <= {("0",), ("1",)}):
+                ck.undecided("ROLE", "obo/link-order", "the link call of the obo reader does not receive the two components of a (child, parent) pair (another shape of the connection list / of the linking API): argument roles not read", where=ro.where(t.line))
+                continue
             ck.ob("ROLE", "obo/link-order", ok, "connections (child, parent) are linked as add_parent(%s, %s)" % ("parent" if comp(pa) == {("1",)} else "?", "child" if comp(ca) == {("0",)} else "?"), where=ro.where(t.line))
 
     # ---- constructors: a field named like a parameter is initialised from that parameter, not from a sibling of the same type
